@@ -19,6 +19,8 @@ def tables():
         'one': [('a', 1, 5, D('1'))],
         'gaps': [('a', 1, 1, D('1')), ('a', 4, 4, D('4')), ('b', 2, 2, D('2')), ('b', 3, 3, D('3')), ('c', 4, 9, D('9')), ('d', 1, 7, D('7')), ('e', 3, 6, D('6')), ('e', 4, 5, D('5'))],
         'empty': [],
+        # NULL values in either pivot column: NULL is a value of its own, sorted first (as ORDER BY sorts it)
+        'nulls': [('a', 1, 1, D('1')), (None, 1, 2, D('2')), ('a', None, 3, D('3')), (None, None, 4, D('4')), ('b', 2, 5, D('5')), (None, 2, 6, D('6'))],
     }
 
 
@@ -48,8 +50,9 @@ def unpivoted(rows, first, second, rest):
 def expected(rows, first, second, rest, positions):
     """positions: target order, a permutation of ['first', 'second'] + rest indices"""
     base = unpivoted(rows, first, second, rest)
-    firsts = sorted({t[0] for t in base})
-    seconds = sorted({t[1] for t in base})
+    nullfirst = lambda v: (v is not None, v if v is not None else 0)
+    firsts = sorted({t[0] for t in base}, key=nullfirst)
+    seconds = sorted({t[1] for t in base}, key=nullfirst)
     n = len(rest)
     names = [f'{first}/{second}'] + ([f'{s}/{a}' for s in seconds for a in rest] if n > 1 else [f'{s}' for s in seconds])
     out = []
@@ -91,12 +94,12 @@ def check(case):
     if got != erows:
         return ('one row per first value ascending; block (r, k) holds the remaining values of the unique row (r, k) or NULLs', {'query': q}, got, erows)
     typemap = {'sum(x)': int, 'count(*)': int, 'max(y)': Decimal, 'sum(y)': Decimal}
-    edts = [dict(COLS)[first]] + [typemap[a] for _ in sorted({t[1] for t in unpivoted(rows, first, second, rest_in_order)}) for a in rest_in_order]
+    edts = [dict(COLS)[first]] + [typemap[a] for _ in {t[1] for t in unpivoted(rows, first, second, rest_in_order)} for a in rest_in_order]
     if dts != edts:
         return ('pivoted columns are typed like the remaining columns', {'query': q}, [t.__name__ for t in dts], [t.__name__ for t in edts])
     # un-pivot reproduces the un-pivoted result
     base = unpivoted(rows, first, second, rest_in_order)
-    seconds = sorted({t[1] for t in base})
+    seconds = sorted({t[1] for t in base}, key=lambda v: (v is not None, v if v is not None else 0))
     n = len(rest_in_order)
     back = set()
     for row in got:
@@ -105,7 +108,7 @@ def check(case):
             if any(v is not None for v in blk):
                 back.add((row[0], s) + blk)
     if back != set(base):
-        return ('un-pivoting reproduces the un-pivoted result', {'query': q}, sorted(back)[:5], sorted(base)[:5])
+        return ('un-pivoting reproduces the un-pivoted result', {'query': q}, sorted(back, key=repr)[:5], sorted(base, key=repr)[:5])
     return None
 
 
